@@ -477,6 +477,16 @@ class LayerHistoryCase(Case):
     layer.scale.assign(S1)
     need_k = bool(monos) or lo is not None or hi is not None
     cl = []
+    # the bound lemma takes the bias to be the value build() gives it (C10): with a bound set no optimizer step may move it
+    if lo is not None or hi is not None:
+      cl.append(('bias-cannot-be-moved-by-training-when-a-bound-is-set', B.const(not getattr(layer.bias, 'trainable', True))))
+    else:
+      cl.append(('bias-is-trainable-without-bounds', B.const(bool(getattr(layer.bias, 'trainable', True)))))
+    sc_ = getattr(layer.scale, 'constraint', None)
+    cl.append(('scale-constraint-attached-exactly-when-a-bound-is-set', B.const((sc_ is not None) == (lo is not None or hi is not None))))
+    if sc_ is not None and hasattr(sc_, 'get_config'):
+      cl.append(('scale-constraint-has-the-layer-bounds', B.const(sc_.get_config().get('output_min') == lo and
+                                                                  sc_.get_config().get('output_max') == hi)))
     cons = [('kernel.constraint', getattr(layer.kernel, 'constraint', None))]
     if hasattr(layer, '_final_kernel_constraints'):
       cons.append(('final-kernel-constraints', layer._final_kernel_constraints))
